@@ -150,7 +150,8 @@ Alphabet == <<
   Item("ws",    <<32>>),
   Item("ws",    <<9>>),
   Item("ws",    <<10>>),
-  Item("hint",  <<8, 0, 5, 34, 32, 47, 42, 45>>)                \* \b, size 5, payload " /*-
+  Item("hint",  <<8, 0, 5, 34, 32, 47, 42, 45>>),               \* \b, size 5, payload " /*-
+  Item("id",    <<195, 164, 120>>)                              \* äx  (UTF-8 bytes: a Go identifier may start with any letter)
 >>
 NA == Len(Alphabet)
 Endings == << <<59, 10>>, <<125, 10>>, <<123, 10>>, <<58, 10>> >>   \* ;\n  }\n  {\n  :\n
@@ -179,7 +180,8 @@ GenShape(q) ==
 
 IsWs(c) == c = SP \/ c = TAB \/ c = NL
 IsDigit(c) == c >= 48 /\ c <= 57
-IsLetter(c) == (c >= 97 /\ c <= 122) \/ (c >= 65 /\ c <= 90)
+\* bytes >= 128 belong to non-ASCII characters, which JavaScript only allows in identifiers (and strings)
+IsLetter(c) == (c >= 97 /\ c <= 122) \/ (c >= 65 /\ c <= 90) \/ c >= 128
 IsIdStart(c) == IsLetter(c) \/ c = 95 \/ c = 36
 \* utils.go needsSpace
 NeedsSpace(c) == IsLetter(c) \/ IsDigit(c) \/ c = 95 \/ c = 36 \/ c = BS
